@@ -127,6 +127,7 @@ var c16JSON = map[string][]string{
 	"string": {`"hello"`, `""`, `"ünï"`},
 	"int":    {`7`, `-3`, `0`},
 	"float":  {`1.5`},
+	"bigint": {`9223372036854775808`, `-9223372036854775809`, `1e19`, `1e30`, `18446744073709551616`}, // integral, but no int64
 	"bool":   {`true`, `false`},
 	"null":   {`null`},
 	"object": {`{"name":"n","count":2}`, `{}`},
@@ -290,7 +291,7 @@ func c16LibraryCase(rt *rapid.T, rec *vt.Rec) {
 				// mostly the right JSON kind for the position
 				jk = map[string]string{"string": "string", "int": "int", "bool": "bool", "struct": "object", "ptr": "object", "slice": "array"}[m.kinds[p]]
 			} else {
-				jk = rapid.SampledFrom([]string{"string", "int", "float", "bool", "null", "object", "array"}).Draw(rt, "jsonKind")
+				jk = rapid.SampledFrom([]string{"string", "int", "float", "bigint", "bool", "null", "object", "array"}).Draw(rt, "jsonKind")
 			}
 			jkinds = append(jkinds, jk)
 			vals = append(vals, rapid.SampledFrom(c16JSON[jk]).Draw(rt, "jsonVal"))
@@ -572,7 +573,7 @@ func TestC16Binary(t *testing.T) {
 			} else if onePos < 0 && i < len(shape) && rapid.IntRange(0, 3).Draw(rt, "matching") > 0 {
 				jk = map[string]string{"string": "string", "int": "int", "struct": "object"}[shape[i]]
 			} else {
-				jk = rapid.SampledFrom([]string{"string", "int", "float", "bool", "null", "object", "array"}).Draw(rt, "jsonKind")
+				jk = rapid.SampledFrom([]string{"string", "int", "float", "bigint", "bool", "null", "object", "array"}).Draw(rt, "jsonKind")
 			}
 			jkinds = append(jkinds, jk)
 			vals = append(vals, rapid.SampledFrom(c16JSON[jk]).Draw(rt, "jsonVal"))
